@@ -265,6 +265,15 @@ type sxRec struct {
 	id   int64
 	name string
 }
+type sxSelf struct {
+	id   int32
+	self *int32
+	pad  int8
+}
+type sxSelfArr struct {
+	arr   [3]int16
+	first *int16
+}
 type sxArrPtrs struct {
 	a *int32
 	b *[4]int32
@@ -329,6 +338,24 @@ func staticValue(name string) (interface{}, J, J) {
 		arrV := J{"el": []J{{"x": 1}, {"x": 2}, {"x": 3}, {"x": 4}}}
 		return &sxArrPtrs{&arr[0], arr, arr, &arr[0]}, J{"k": "ptr", "e": J{"k": "struct", "f": []J{{"k": "ptr", "e": sc("int32")}, {"k": "ptr", "e": arrT}, {"k": "ptr", "e": arrT}, {"k": "ptr", "e": sc("int32")}}}},
 			J{"nil": false, "to": J{"f": []J{{"nil": false, "to": J{"x": 1}}, {"nil": false, "to": arrV}, {"nil": false, "to": arrV}, {"nil": false, "to": J{"x": 1}}}}}
+	case "selfptr":
+		// a struct that holds a pointer to its own first field, reached through a pointer to the struct: the address
+		// of the pointee is already "on the path" although nothing is cyclic
+		n := &sxSelf{id: 7}
+		n.self = &n.id
+		st := J{"k": "struct", "f": []J{sc("int32"), {"k": "ptr", "e": sc("int32")}, sc("int8")}}
+		sv := J{"f": []J{{"x": 7}, {"nil": false, "to": J{"x": 7}}, {"x": 0}}}
+		return []interface{}{n, *n}, J{"k": "slice", "e": sc("iface")},
+			J{"nil": false, "el": []J{{"nil": false, "dt": J{"k": "ptr", "e": st}, "dyn": J{"nil": false, "to": sv}}, {"nil": false, "dt": st, "dyn": sv}}}
+	case "selfarr":
+		// the same with element 0 of an array, two pointer levels down
+		a := &sxSelfArr{}
+		a.arr = [3]int16{1, 2, 3}
+		a.first = &a.arr[0]
+		pa := &a
+		st := J{"k": "struct", "f": []J{{"k": "array", "n": 3, "e": sc("int16")}, {"k": "ptr", "e": sc("int16")}}}
+		sv := J{"f": []J{{"el": []J{{"x": 1}, {"x": 2}, {"x": 3}}}, {"nil": false, "to": J{"x": 1}}}}
+		return pa, J{"k": "ptr", "e": J{"k": "ptr", "e": st}}, J{"nil": false, "to": J{"nil": false, "to": sv}}
 	case "outerslice":
 		a, ta, va := staticValue("outer")
 		o := a.(sxOuter)
@@ -580,7 +607,7 @@ func (sg *sizeGen) val(t J, depth int, uniq bool) J {
 func genC20(g *Gen) {
 	sg := &sizeGen{r: g.R}
 	g.Case("size", J{"topnil": true})
-	for _, name := range []string{"inner", "innerptr", "outer", "outerslice", "emb", "embptr", "twoptr", "samename", "interior", "interiorarr"} {
+	for _, name := range []string{"inner", "innerptr", "outer", "outerslice", "emb", "embptr", "twoptr", "samename", "interior", "interiorarr", "selfptr", "selfarr"} {
 		g.Case("size", J{"topnil": false, "static": name})
 	}
 	// every scalar kind at top level, in a slice, an array, behind a pointer, in an interface, as map value
